@@ -451,3 +451,113 @@ func descOpCase(base registry.Reference, op string, plain bool, d, a1 string, n 
 		run.OracleFail(id, "descop-url", fmt.Sprintf("%s(%q,%q,%d) on %v sent %s %s; want %s %s://%s/v2/%s/%s with query exactly %v", op, d, a1, n, base, q.Method, q.URL, method, wantScheme, base.Host(), base.Repository, tail, want), rep)
 	}
 }
+
+// ---------- constructors (how a base comes to exist) and the Registry's own requests ----------
+
+// newRepositoryCase: remote.NewRepository(s) accepts exactly what ParseReference accepts and the
+// base is the parsed reference; then one Resolve through the constructed value.
+func newRepositoryCase(s string) {
+	id := run.NewID()
+	repo, err := remote.NewRepository(s)
+	obs := "ERR"
+	if err == nil {
+		obs = showRef(repo.Reference)
+		run.Count("newrepo_ok")
+		run.Nontrivial("N:" + s)
+	}
+	run.Case(id, "N repo "+common.Hex(s)+" -", obs)
+	run.Count("newrepo")
+	ref, perr := registry.ParseReference(s)
+	if (err == nil) != (perr == nil) || (err == nil && repo.Reference != ref) {
+		run.OracleFail(id, "new-repository", fmt.Sprintf("NewRepository(%q) = %v, %v but ParseReference = %+v, %v", s, repo, err, ref, perr), map[string]string{"op": "N", "kind": "repo", "input": s})
+	}
+}
+
+// registryRepositoryCase: NewRegistry(name) then Registry.Repository(ctx, sub)
+func registryRepositoryCase(name, sub string) {
+	id := run.NewID()
+	obs := "ERR"
+	reg, err := remote.NewRegistry(name)
+	if err == nil {
+		obs = "REGOK"
+		run.Count("newregistry_ok")
+		r, err2 := reg.Repository(context.Background(), sub)
+		if err2 == nil {
+			rr := r.(*remote.Repository)
+			obs = showRef(rr.Reference)
+			run.Count("registry_repository_ok")
+			if rr.Reference.Registry != name || rr.Reference.Repository != sub || rr.Reference.Reference != "" || !okRepository(sub) {
+				run.OracleFail(id, "registry-repository", fmt.Sprintf("NewRegistry(%q).Repository(%q) = %+v", name, sub, rr.Reference), map[string]string{"op": "N", "kind": "reg", "input": name, "reference": sub})
+			}
+		} else if okRepository(sub) {
+			run.OracleFail(id, "registry-repository", fmt.Sprintf("NewRegistry(%q).Repository(%q) refused: %v", name, sub, err2), map[string]string{"op": "N", "kind": "reg", "input": name, "reference": sub})
+		}
+	}
+	run.Case(id, "N reg "+common.Hex(name)+" "+common.Hex(sub), obs)
+	run.Count("newregistry")
+}
+
+// regOpCase: Ping / Repositories(last) with page size n on a Registry value
+func regOpCase(name, op string, plain bool, last string, n int) {
+	id := run.NewID()
+	if wedges >= 3 {
+		return
+	}
+	t := &recTransport{}
+	reg := &remote.Registry{RepositoryOptions: remote.RepositoryOptions{Reference: registry.Reference{Registry: name}, PlainHTTP: plain, Client: &http.Client{Transport: t}}}
+	reg.RepositoryListPageSize = n
+	hung := t.guard(func(ctx context.Context) {
+		if op == "rping" {
+			reg.Ping(ctx)
+		} else {
+			reg.Repositories(ctx, last, func([]string) error { return nil })
+		}
+	})
+	reqs := t.requests()
+	rep := map[string]any{"op": "E", "kind": op, "plain": plain, "registry": name, "input": last, "n": strconv.Itoa(n)}
+	if hung || t.runaway {
+		wedges++
+		run.OracleFail(id, "op-hang", fmt.Sprintf("%s on registry %q did not return (%d requests)", op, name, len(reqs)), rep)
+		return
+	}
+	var sb strings.Builder
+	sb.WriteString("REQS")
+	for _, q := range reqs {
+		sb.WriteString(" " + common.Hex(q.Method) + ":" + common.Hex(q.URL.String()))
+	}
+	p := "0"
+	if plain {
+		p = "1"
+	}
+	num := ""
+	if n > 0 {
+		num = strconv.Itoa(n)
+	}
+	run.Case(id, fmt.Sprintf("E %s %s %s %s %s", op, p, common.Hex(name), common.Hex(last), common.Hex(num)), sb.String())
+	run.Count("regop_" + op)
+	want := url.Values{}
+	path := "/v2/"
+	if op == "rcatalog" {
+		path = "/v2/_catalog"
+		if last != "" {
+			want.Set("last", last)
+		}
+		if n > 0 {
+			want.Set("n", num)
+		}
+	}
+	if len(reqs) != 1 {
+		run.OracleFail(id, "regop-url", fmt.Sprintf("%s on %q sent %d requests", op, name, len(reqs)), rep)
+		return
+	}
+	q := reqs[0]
+	got, qerr := url.ParseQuery(q.URL.RawQuery)
+	okq := qerr == nil && len(got) == len(want)
+	for k, v := range want {
+		okq = okq && len(got[k]) == 1 && got[k][0] == v[0]
+	}
+	host := registry.Reference{Registry: name}.Host()
+	if q.Method != "GET" || q.URL.Host != host || q.URL.User != nil || q.URL.Fragment != "" || q.URL.EscapedPath() != path || !okq {
+		run.OracleFail(id, "regop-url", fmt.Sprintf("%s(%q,%d) on registry %q sent %s %s; want GET //%s%s with query exactly %v", op, last, n, name, q.Method, q.URL, host, path, want), rep)
+	}
+}
